@@ -719,6 +719,9 @@ def witness(ref: refgen.Ref, case_small, case_as, case_fus, case_circ, st: Setti
     w2f_ids = [i for i in ids if i.startswith('W2F-')]
     sect_ids = [i for i in ids if i.startswith('SECT-')]
     ids = [i for i in ids if not (i.startswith('W2F-') or i.startswith('SECT-'))]
+    # "the named variants" is a set: an id repeated inside one entry (the tool repeats an SNV that it also
+    # lists through the MNV it was merged into) names the same record once
+    ids = list(dict.fromkeys(ids))
     target = pep
     if w2f_ids:
         if not st.w2f:
